@@ -24,7 +24,7 @@ C_TOL = 5.0
 
 @st.composite
 def strategy_case(draw):
-    form = draw(st.sampled_from(["x/y", "s/y", "ediv", "ediv", "ediv", "x/s"]))
+    form = draw(st.sampled_from(["x/y", "s/y", "ediv", "ediv", "ediv", "x/s", "ediv_scalar"]))
     d = draw(st.integers(2, 5))
     N = draw(gen.modes(d, d, (1, 2, 3, 4, 5, 6, 8, 10), maxnumel=3000, distinct_bias=0.4))
     case = {"form": form, "N": N, "seed": draw(gen.SEED), "lib_seed": draw(gen.SEED),
